@@ -5,6 +5,7 @@ package rules
 import (
 	"fmt"
 	"go/token"
+	"go/types"
 	"sort"
 	"strings"
 
@@ -22,6 +23,13 @@ type Ctx struct {
 	Tier string
 
 	repoFuncs []*ssa.Function
+	invokes   map[string][]invokeSite // method name -> invoke-mode call sites in production code
+}
+
+type invokeSite struct {
+	fn    *ssa.Function
+	site  ssa.CallInstruction
+	iface *types.Interface
 }
 
 type Rule struct {
@@ -114,6 +122,38 @@ func (x *Ctx) Callers(f *ssa.Function) []*callgraph.Edge {
 		return nil
 	}
 	var out []*callgraph.Edge
+	seenSite := map[ssa.CallInstruction]bool{}
+	for _, e := range n.In {
+		if e.Site != nil {
+			seenSite[e.Site] = true
+		}
+	}
+	// Components are wired by reflection (facebookgo/inject), so VTA sees no
+	// assignment of concrete types to injected interface fields: add the
+	// class-hierarchy edges for interface calls whose interface f's receiver implements.
+	if recv := f.Signature.Recv(); recv != nil && f.Synthetic == "" {
+		if x.invokes == nil {
+			x.invokes = map[string][]invokeSite{}
+			for _, g := range x.RepoFuncs() {
+				eng.Instrs(g, func(in ssa.Instruction) {
+					if ci, ok := in.(ssa.CallInstruction); ok && ci.Common().IsInvoke() {
+						if it, ok := ci.Common().Value.Type().Underlying().(*types.Interface); ok {
+							m := ci.Common().Method.Name()
+							x.invokes[m] = append(x.invokes[m], invokeSite{g, ci, it})
+						}
+					}
+				})
+			}
+		}
+		for _, is := range x.invokes[f.Name()] {
+			if seenSite[is.site] {
+				continue
+			}
+			if types.Implements(recv.Type(), is.iface) {
+				out = append(out, &callgraph.Edge{Caller: cg.CreateNode(is.fn), Site: is.site, Callee: n})
+			}
+		}
+	}
 	for _, e := range n.In {
 		if e.Caller == nil || e.Caller.Func == nil {
 			continue
